@@ -183,6 +183,50 @@ def run(res, args):
                                'request_prefix': f'W2X 0 0 {gen} {ind} 0 {doc[:40].hex()}...'}, f'heap-{len(heap)}')
     res.coverage['heap_ladder'] = heap
 
+    # ---- growth exponent: "string-table references can make the decoded document at most quadratically larger
+    # than its encoding": each family is converted at two scales (input about doubled); output growing faster
+    # than quadratically is a violation of the bound clause
+    import math
+
+    def embedded_family(k):
+        # SyncML 1.2: <Item><Meta><Type>…devinf+wbxml</Type></Meta><Data> k references to a document that lives in
+        # the string table and itself holds k references to k octets </Data></Item>  (Props/C01.cubic_witness)
+        p1 = k + 1 if (k + 1) % 128 else k + 2                   # the inner document must be NUL-free
+        inner = bytes([2]) + _mb(0x1201) + bytes([0x6A]) + _mb(p1) + b'a' * p1 + bytes([0x54]) + bytes([0x83, 0x01]) * k + bytes([1])
+        if b'\x00' in inner:
+            return None
+        return (bytes([2]) + _mb(0x1201) + bytes([0x6A]) + _mb(len(inner) + 1) + inner + b'\x00' + bytes([0x54, 0x5A, 0x00, 0x01, 0x53, 0x03]) +
+                b'application/vnd.syncml-devinf+wbxml' + bytes([0x00, 0x01, 0x01, 0x00, 0x00, 0x4F]) + bytes([0x83, 0x00]) * k + bytes([1, 1]))
+    fams = {
+        'inline-string': lambda k: bytes([3, 5, 0x6a, 0, 0x45, 3]) + b'a' * (40 * k) + bytes([0, 1]),
+        'string-table-references': lambda k: bytes([3, 5, 0x6a]) + _mb(10 * k + 1) + b'q' * (10 * k) + b'\x00' + bytes([0x45]) + bytes([0x83, 0]) * (10 * k) + bytes([1]),
+        'embedded-documents-by-string-table-reference': embedded_family,
+    }
+    growth = {}
+    k0 = 60 if quick else 110
+    for name, fam in fams.items():
+        pts = []
+        for k in (k0, 2 * k0):
+            doc = fam(k)
+            if doc is None:
+                continue
+            rc, out, rss = common.peak_rss(ph, f'W2X 0 0 0 0 0 {doc.hex()}\n', timeout=1800)
+            outlen = (len(out.split()[3]) // 2) if out.startswith('R 0 ; ') and len(out.split()) > 3 else 0
+            pts.append((len(doc), outlen, rss))
+        if len(pts) == 2 and pts[0][1] > 0 and pts[1][1] > 0:
+            expo = math.log(pts[1][1] / pts[0][1]) / math.log(pts[1][0] / pts[0][0])
+            growth[name] = {'points(input,output,peak_rss)': pts, 'exponent': round(expo, 2)}
+            if expo > 2.4 and pts[1][1] > 200000:
+                kf = next((k for k in known if k['match'].get('kind') == 'growth-exponent' and k['match'].get('family') == name), None)
+                if kf:
+                    if f"{kf['id']}: {kf['what']}" not in res.known:
+                        res.known.append(f"{kf['id']}: {kf['what']}")
+                else:
+                    res.violation({'kind': 'growth-exponent', 'family': name, 'points(input,output,peak_rss)': pts, 'exponent': round(expo, 2),
+                                   'explain': 'doubling the input multiplies the output by more than 2^2.4: the decoded document is not at most quadratically larger than its encoding',
+                                   'request_prefix': f'W2X 0 0 0 0 0 {fam(2 * k0)[:60].hex()}...'}, f'growth-{len(growth)}')
+    res.coverage['growth_exponents'] = growth
+
     if corr_diff and not res.violations:
         i = corr_diff[0]
         res.violation({'kind': 'correspondence', 'stream': 'W2X', 'request': all_lines[i], 'impl': (impl[i] or '')[:600], 'model': (model[i] or '')[:600], 'differences': len(corr_diff),
